@@ -722,3 +722,45 @@ func c12failedInit(rep *vh.Report, r *vh.RNG) {
 		}
 	}
 }
+
+// TestC12Known tries to re-observe the known finding F9 (DESIGN §5): the UDP listener dependency panics when
+// the first datagram of a new peer arrives while the node is closing. It runs in its own child process (the
+// panic kills it); the driver turns the crash into the KNOWN-FINDING line. Not reproducing it is not a failure.
+func TestC12Known(t *testing.T) {
+	rep := vh.NewReport("C12")
+	defer rep.Finish(t)
+	rep.Rule("targeted re-observation of the known UDP-listener crash: Initialize a UDP server node, four goroutines send first datagrams from fresh sockets, Close; repeated")
+	n := vh.Pick(300, 3000)
+	for it := 0; it < n; it++ {
+		port := freeUDPPort()
+		node := &gomavlib.Node{Endpoints: []gomavlib.EndpointConf{gomavlib.EndpointUDPServer{Address: fmt.Sprintf("127.0.0.1:%d", port)}},
+			Dialect: testDialect, OutVersion: gomavlib.V2, OutSystemID: 1, HeartbeatDisable: true}
+		if err := node.Initialize(); err != nil {
+			continue
+		}
+		go func() {
+			for range node.Events() {
+			}
+		}()
+		var stop int32
+		for p := 0; p < 4; p++ {
+			go func() {
+				for atomic.LoadInt32(&stop) == 0 {
+					c, err := net.Dial("udp4", fmt.Sprintf("127.0.0.1:%d", port))
+					if err != nil {
+						return
+					}
+					_, _ = c.Write(uidFrame(1, 0, 1, false, nil, 0))
+					c.Close()
+				}
+			}()
+		}
+		time.Sleep(time.Duration(it%7) * 100 * time.Microsecond)
+		node.Close()
+		atomic.StoreInt32(&stop, 1)
+		rep.Eval(1)
+		rep.Distinct("known", it)
+	}
+	rep.Sample("UDP server node closed while new peers send their first datagram")
+	rep.Count("known_finding_attempts", n)
+}
